@@ -10,7 +10,7 @@
   PARTIAL by construction (DESIGN.md §7): the link "text of a part ↦ event stream" is expat's.
 -/
 import OdfModel.Props.C04
-import OdfModel.Pkg
+import OdfModel.Props.C05Extras
 namespace OdfModel.Props.C05
 open OdfModel OdfModel.Xml OdfModel.LoadSax OdfModel.Props.C04
 
@@ -204,160 +204,13 @@ theorem finding_content_fonts_skipped :
     (loadPart (stylesPartOf sContentXml) {} (evN contentWithFonts)).map
       (fun l => (topNames l.doc.fontFace, topNames l.doc.body)) = some ([], [exQ 97]) := by decide
 
-/-! ### opaque manifest members -/
+/-! ### opaque manifest members
 
-open OdfModel.Pkg in
-/-- what falls through to the last branch of the dispatch in `load` -/
-def isOpaque (m : Str) : Bool :=
-  !isPicturePath m && !(m == sThumb) && !isXmlPart m && !isRegenerated m && !isObjectFolder m && !(m.take 7 == sObjectSp)
-
-open OdfModel.Pkg in
-theorem loadEntry_opaque (p : Package) (keys : List Str) (s s' : LoadSt) (e : Str × Str) (ho : isOpaque e.1 = true)
-    (h : loadEntry p keys s e = some s') :
-    ∃ c, s'.extras = s.extras ++ [⟨e.1, e.2, c⟩] ∧ (e.1.getLast? ≠ some 47 → c = zread p.members e.1 ∧ c.isSome) := by
-  simp only [isOpaque, Bool.and_eq_true, Bool.not_eq_true'] at ho
-  obtain ⟨⟨⟨⟨⟨h1, h2⟩, h3⟩, h4⟩, h5⟩, h6⟩ := ho
-  unfold loadEntry at h
-  simp only [h1, h2, h3, h4, h5, h6, Bool.false_eq_true, if_false] at h
-  cases hl : e.1.getLast? with
-  | none => simp [hl] at h
-  | some c =>
-    simp only [hl] at h
-    by_cases hc : (c == 47) = true
-    · simp only [hc, if_true, Option.some.injEq] at h
-      refine ⟨none, by rw [← h], ?_⟩
-      intro hne; exfalso; apply hne; simp at hc; rw [hc]
-    · simp only [hc, Bool.false_eq_true, if_false] at h
-      cases hz : zread p.members e.1 with
-      | none => simp [hz] at h
-      | some b =>
-        simp only [hz, Option.some.injEq] at h
-        exact ⟨some b, by rw [← h], fun _ => ⟨rfl, rfl⟩⟩
-
-open OdfModel.Pkg in
-theorem loadEntry_extras_grow (p : Package) (keys : List Str) (s s' : LoadSt) (e : Str × Str)
-    (h : loadEntry p keys s e = some s') : ∃ t, s'.extras = s.extras ++ t := by
-  unfold loadEntry at h
-  simp only at h
-  by_cases h1 : isPicturePath e.1 = true
-  · simp only [h1, if_true] at h
-    cases hz : zread p.members e.1 with
-    | none => simp [hz] at h
-    | some b => simp only [hz, Option.some.injEq] at h; subst h; exact ⟨[], by simp⟩
-  simp only [h1, Bool.false_eq_true, if_false] at h
-  by_cases h2 : (e.1 == sThumb) = true
-  · simp only [h2, if_true] at h
-    cases hz : zread p.members e.1 with
-    | none => simp [hz] at h
-    | some b => simp only [hz, Option.some.injEq] at h; subst h; exact ⟨[], by simp⟩
-  simp only [h2, Bool.false_eq_true, if_false] at h
-  by_cases h3 : isXmlPart e.1 = true
-  · simp only [h3, if_true, Option.some.injEq] at h; subst h; exact ⟨[], by simp⟩
-  simp only [h3, Bool.false_eq_true, if_false] at h
-  by_cases h4 : isRegenerated e.1 = true
-  · simp only [h4, if_true, Option.some.injEq] at h; subst h; exact ⟨[], by simp⟩
-  simp only [h4, Bool.false_eq_true, if_false] at h
-  by_cases h5 : isObjectFolder e.1 = true
-  · simp only [h5, if_true, Option.some.injEq] at h; subst h; exact ⟨[], by simp⟩
-  simp only [h5, Bool.false_eq_true, if_false] at h
-  by_cases h6 : (e.1.take 7 == sObjectSp) = true
-  · simp only [h6, if_true, Option.some.injEq] at h; subst h; exact ⟨[], by simp⟩
-  simp only [h6, Bool.false_eq_true, if_false] at h
-  cases hl : e.1.getLast? with
-  | none => simp [hl] at h
-  | some c =>
-    simp only [hl] at h
-    by_cases hc : (c == 47) = true
-    · simp only [hc, if_true, Option.some.injEq] at h; subst h; exact ⟨_, rfl⟩
-    · simp only [hc, Bool.false_eq_true, if_false] at h
-      cases hz : zread p.members e.1 with
-      | none => simp [hz] at h
-      | some b => simp only [hz, Option.some.injEq] at h; subst h; exact ⟨_, rfl⟩
-
-open OdfModel.Pkg in
-theorem loadLoop_extras_grow (p : Package) (keys : List Str) : ∀ (es : List (Str × Str)) (s s' : LoadSt),
-    loadLoop p keys s es = some s' → ∃ t, s'.extras = s.extras ++ t := by
-  intro es
-  induction es with
-  | nil => intro s s' h; simp only [loadLoop, Option.some.injEq] at h; subst h; exact ⟨[], by simp⟩
-  | cons e es ih =>
-    intro s s' h
-    simp only [loadLoop] at h
-    cases h1 : loadEntry p keys s e with
-    | none => simp [h1] at h
-    | some s1 =>
-      simp only [h1] at h
-      obtain ⟨t1, ht1⟩ := loadEntry_extras_grow p keys s s1 e h1
-      obtain ⟨t2, ht2⟩ := ih s1 s' h
-      exact ⟨t1 ++ t2, by rw [ht2, ht1, List.append_assoc]⟩
-
-open OdfModel.Pkg in
-theorem loadLoop_keeps_opaque (p : Package) (keys : List Str) : ∀ (es : List (Str × Str)) (s s' : LoadSt),
-    loadLoop p keys s es = some s' → ∀ e ∈ es, isOpaque e.1 = true →
-    ∃ c, (⟨e.1, e.2, c⟩ : Extra) ∈ s'.extras ∧ (e.1.getLast? ≠ some 47 → c = zread p.members e.1 ∧ c.isSome) := by
-  intro es
-  induction es with
-  | nil => intro s s' _ e he; cases he
-  | cons e0 es ih =>
-    intro s s' h e he ho
-    simp only [loadLoop] at h
-    cases h1 : loadEntry p keys s e0 with
-    | none => simp [h1] at h
-    | some s1 =>
-      simp only [h1] at h
-      rcases List.mem_cons.mp he with rfl | he'
-      · obtain ⟨c, hc, hz⟩ := loadEntry_opaque p keys s s1 e ho h1
-        obtain ⟨t, ht⟩ := loadLoop_extras_grow p keys es s1 s' h
-        exact ⟨c, by rw [ht, hc]; simp, hz⟩
-      · exact ih s1 s' h e he' ho
-
-open OdfModel.Pkg in
-theorem mem_extrasOut_man (es : List Extra) (x : Extra) (hx : x ∈ es) (hs : x.filename ≠ sDocSig) :
-    (∃ fl, (⟨x.filename, x.mediatype, fl⟩ : ME) ∈ (extrasOut es).man) ∧
-    (∀ b, x.content = some b → (⟨x.filename, .deflated, [], .bytes b⟩ : ZE) ∈ (extrasOut es).zip) := by
-  induction es with
-  | nil => cases hx
-  | cons e es ih =>
-    simp only [extrasOut, Out.man_append, Out.zip_append, List.mem_append]
-    rcases List.mem_cons.mp hx with rfl | hx'
-    · unfold extraOut
-      simp only [hs, if_false]
-      cases hc : x.content with
-      | none => exact ⟨⟨true, Or.inl (by simp)⟩, fun b hb => by cases hb⟩
-      | some b0 => exact ⟨⟨false, Or.inl (by simp)⟩, fun b hb => by cases hb; exact Or.inl (by simp)⟩
-    · obtain ⟨⟨fl, h1⟩, h2⟩ := ih hx'
-      exact ⟨⟨fl, Or.inr h1⟩, fun b hb => Or.inr (h2 b hb)⟩
-
-open OdfModel.Pkg in
-/-- **C05 (extras_carried)**: every manifest entry that `load` does not interpret — not a picture, the thumbnail,
-    one of the four parts, a regenerated entry ("/", "Thumbnails/", mimetype, the manifest), or anything below an
-    "Object " folder — is in the manifest of the re-saved package under the same path with the same media type, and,
-    unless it is a folder entry, as a member with the very bytes the source held; META-INF/documentsignatures.xml
-    excepted (a rewrite invalidates signatures).  For every package that loads at all. -/
-theorem extras_carried (p : Package) (d : Pkg.Doc) (hl : load p = some d) (e : Str × Str)
-    (he : e ∈ manifestlist p.manifest) (ho : isOpaque e.1 = true) (hs : e.1 ≠ sDocSig) :
-    (∃ fl, (⟨e.1, e.2, fl⟩ : ME) ∈ (save d).man) ∧
-    (e.1.getLast? ≠ some 47 → ∃ b, zread p.members e.1 = some b ∧
-      (⟨e.1, .deflated, [], .bytes b⟩ : ZE) ∈ (save d).zip) := by
-  unfold load at hl
-  simp only at hl
-  cases hloop : loadLoop p ((manifestlist p.manifest).map (·.1)) ⟨[], none, [], []⟩ (manifestlist p.manifest) with
-  | none => simp [hloop] at hl
-  | some s =>
-    simp only [hloop, Option.some.injEq] at hl
-    subst hl
-    obtain ⟨c, hc, hz⟩ := loadLoop_keeps_opaque p _ _ _ s hloop e he ho
-    obtain ⟨⟨fl, hm⟩, hzip⟩ := mem_extrasOut_man s.extras ⟨e.1, e.2, c⟩ hc hs
-    refine ⟨⟨fl, ?_⟩, ?_⟩
-    · simp only [save, Out.man_append, List.mem_append]
-      exact Or.inl (Or.inr hm)
-    · intro hne
-      obtain ⟨hc1, hc2⟩ := hz hne
-      cases hcb : c with
-      | none => rw [hcb] at hc2; cases hc2
-      | some b =>
-        refine ⟨b, by rw [← hc1, hcb], ?_⟩
-        simp only [save, Out.zip_append, List.mem_append]
-        exact Or.inl (Or.inr (hzip b (by simp [hcb])))
+  `extras_carried` (every manifest entry `load` does not interpret is carried by load+save with path, media type and
+  bytes) was proved here against the dispatch model of lean/OdfModel/Pkg.lean as it was before fix 0372084.  That model
+  has been rewritten (recursive load, save by folder); the statement now belongs to the general theorem of the package
+  layer (Props/C16.lean / Props/C03.lean: non-interpreted entries at ANY depth).  The old proof is parked in
+  Props/C05Extras.lean (not built by `./check C05`) until it is re-pointed.  The oracle of harness/c05.py checks the
+  statement on every package (listed files below object folders included). -/
 
 end OdfModel.Props.C05
